@@ -106,7 +106,7 @@ func (c *eagerConn) Send(ctx context.Context, d *actions.SubscriptionMessageDeli
 }
 
 func runEager(sc *scenario, scratch string) ([]map[string]any, error) {
-	ctx, cancel := context.WithTimeout(context.Background(), 60*time.Second)
+	ctx, cancel := context.WithTimeout(context.Background(), 120*time.Second)
 	defer cancel()
 	w, err := world.New(ctx, scratch)
 	if err != nil {
@@ -182,7 +182,7 @@ func runEager(sc *scenario, scratch string) ([]map[string]any, error) {
 		}
 		// a stall is only declared after a long silence: under machine load a fetch can take seconds,
 		// while a real stall lasts for good
-		if open == 0 || time.Since(last) > 10*time.Second || time.Since(start) > 40*time.Second {
+		if open == 0 || time.Since(last) > 20*time.Second || time.Since(start) > 60*time.Second {
 			break
 		}
 		select {
